@@ -96,7 +96,74 @@ def plan(prop, tier, seed):
     # one LONG run: every counter (cycles, instructions, branches, cache hits and accesses) passes 2^16 - the bounded
     # programs above never leave the range a narrow counter type would still get right
     shards += [{"kind": "long", "shard": 0, "hz": hz}]
+    # the command line front end is one more way to configure and run a five-stage simulation
+    shards += [{"kind": "cli", "shard": 0, "hz": hz}]
     return shards
+
+
+def run_cli_shard(prop, hz, rng, res):
+    """load <file> -fiveStage [-noDataHazardDetection] -run typed into architecture_simulator.cli.cli.main() (through a
+    prompt_toolkit pipe input) in the documented camelCase spelling, in lower case and in upper case: the printed
+    registers, cycle and instruction counts are those of the timed reference with / without the interlock."""
+    spellings = ["-fiveStage -noDataHazardDetection", "-fivestage -nodatahazarddetection", "-FIVESTAGE -NODATAHAZARDDETECTION", "-noDataHazardDetection -fiveStage"] if not hz else ["-fiveStage", "-fivestage", "-FIVESTAGE"]
+    for i in range(14):
+        prog = G.soup_program(rng, rng.randint(3, 14), aligned=True, ecall=False, jalr=False, pool=[1, 2, 3, 5], mem_w=0.0)
+        prog = [{"m": "addi", "rd": r, "rs1": 0, "imm": rng.choice([1, 2, 3, 15, -1])} for r in (1, 2, 3)] + prog
+        case = {"kind": "cli", "prog": prog, "regs": {}, "mem": {}, "hz": hz, "options": spellings[i % len(spellings)]}
+        guarded(run_case, prop, case, res)
+
+
+def run_cli_case(case, res):
+    import contextlib, io, os, re, shutil, tempfile, warnings
+
+    try:
+        from prompt_toolkit.application import create_app_session
+        from prompt_toolkit.input import create_pipe_input
+        from prompt_toolkit.output import DummyOutput
+
+        with warnings.catch_warnings():
+            warnings.simplefilter("ignore")
+            from architecture_simulator.cli import cli
+    except Exception:
+        return  # no command line front end in this tree / environment: nothing to observe
+    from .icache import asm_text
+
+    hz, prog = case["hz"], case["prog"]
+    VAL = "C02" if hz else "C08"
+    TIM = "C07" if hz else "C08"
+    ref = TimedRef({4 * j: d_ for j, d_ in enumerate(prog)}, {}, {}, interlock=hz)
+    ref.run(max_instr=300)
+    if ref.timeout or ref.fault:
+        return
+    d = tempfile.mkdtemp(prefix="vpcli-")
+    try:
+        path = os.path.join(d, "prog.s")
+        with open(path, "w") as f:
+            f.write(asm_text(prog) + "\n")
+        out = io.StringIO()
+        with create_pipe_input() as pin:
+            pin.send_text("load %s %s -run\nexit\n" % (path, case["options"]))
+            with create_app_session(input=pin, output=DummyOutput()):
+                with contextlib.redirect_stdout(out):
+                    cli.main()
+    finally:
+        shutil.rmtree(d, ignore_errors=True)
+    text = out.getvalue()
+    regs = {int(a): int(b) & M32 for a, b in re.findall(r"Register\s+(\d+):\s+(-?\d+)", text)}
+    cyc = re.findall(r"cycles:\s+(\d+)", text)
+    ins = re.findall(r"instructions:\s+(\d+)", text)
+    if len(regs) != 32 or not cyc or not ins:
+        res.count("cli_sessions_unreadable")
+        return
+    res.count("cli_sessions_compared")
+    res.evaluations += 1
+    want = ref.final_regs()
+    bad = [(r, hex(regs[r]), hex(want[r])) for r in range(32) if regs[r] != want[r]]
+    if bad or int(ins[-1]) != len(ref.retire):
+        res.violation(VAL, "cli-run", "command line front end, 'load <file> %s -run': registers (reg, printed, %s reference) %s, instructions printed %s, reference %d" % (case["options"], "interlock-free" if not hz else "timed", bad[:4], ins[-1], len(ref.retire)), case)
+        return
+    if int(cyc[-1]) != ref.cycles:
+        res.violation(TIM, "cli-run", "command line front end, 'load <file> %s -run': %s cycles printed, documented schedule %d" % (case["options"], cyc[-1], ref.cycles), case)
 
 
 def long_case(hz, iters=9000):
@@ -164,6 +231,9 @@ def run_shard(spec, res):
             guarded(run_case, prop, case, res)
             res.evaluations += 1
             res.sample(case, 2)
+        return
+    if kind == "cli":
+        run_cli_shard(prop, hz, rng, res)
         return
     if kind == "long":
         # (quick: cycles and instructions pass 2^16; thorough: cache accesses and hits as well)
@@ -586,6 +656,8 @@ def mem_image(sim, extra_addrs=()):
 
 
 def run_case(prop, case, res):
+    if case.get("kind") == "cli":
+        return run_cli_case(case, res)
     prog = {4 * i: d for i, d in enumerate(case["prog"])}
     hz = case["hz"]
     ref = TimedRef(prog, case["regs"], case["mem"], interlock=hz)
